@@ -231,7 +231,8 @@ pub fn run_batch(batch: &Batch, work: &Path, tag: &str, stats: &Stats) -> Result
             let _ = sv;
             let present = smp.hosts.get(&key).copied();
             // sends around the sample
-            let completed_before: Vec<&(u64, u64)> = b.sends.iter().filter(|(_, e)| *e <= smp.start).collect();
+            // strictly before: the clock has 1 ms resolution, "same millisecond" does not order the two events
+            let completed_before: Vec<&(u64, u64)> = b.sends.iter().filter(|(_, e)| *e < smp.start).collect();
             let any_overlap = b.sends.iter().chain(b.failed.iter()).any(|(s0, e0)| *s0 <= smp.end && *e0 >= smp.start);
             if completed_before.is_empty() {
                 continue; // not registered for sure yet
